@@ -1,3 +1,4 @@
+import argparse
 import dataclasses
 import datetime
 import hashlib
@@ -195,22 +196,29 @@ class TupimageConfig:
 
         # Normalize values specified as strings.
         if isinstance(value, str) and value != "auto":
-            if field_type is IDSubspace:
-                value = IDSubspace.from_string(value)
-            if field_type is IDSpace:
-                value = IDSpace.from_string(value)
-            if name == "cell_size" or name == "default_cell_size":
-                value = tupimage.utils.validate_size(value)
-            if name == "id_database_dir" and value == "":
-                value = platformdirs.user_state_dir("tupimage")
-            if name == "upload_method":
-                value = TransmissionMedium.from_string(value)
-            if name == "supported_formats":
-                value = re.split(r"[, ]+", value)
-            if isinstance(value, str):
-                # Scalar options are converted according to their declared type, so
-                # that every option can be set from a string (environment variables).
-                value = TupimageConfig._convert_scalar(field_type, value)
+            original = value
+            try:
+                if field_type is IDSubspace:
+                    value = IDSubspace.from_string(value)
+                if field_type is IDSpace:
+                    value = IDSpace.from_string(value)
+                if name == "cell_size" or name == "default_cell_size":
+                    value = tupimage.utils.validate_size(value)
+                if name == "id_database_dir" and value == "":
+                    value = platformdirs.user_state_dir("tupimage")
+                if name == "upload_method":
+                    value = TransmissionMedium.from_string(value)
+                if name == "supported_formats":
+                    value = re.split(r"[, ]+", value)
+                if isinstance(value, str):
+                    # Scalar options are converted according to their declared type, so
+                    # that every option can be set from a string (environment variables).
+                    value = TupimageConfig._convert_scalar(field_type, value)
+            except (ValueError, argparse.ArgumentTypeError) as e:
+                raise ValueError(
+                    f"Invalid value '{original}' for option '{name}'"
+                    f" ({provenance or 'set in code'}): {e}"
+                )
         # An integer is a valid value for a float option (e.g. `scale = 2` in toml).
         if field_type is float and type(value) is int:
             value = float(value)
@@ -225,6 +233,9 @@ class TupimageConfig:
             )
 
         # Verify additional constraints.
+        if name in ("cell_size", "default_cell_size") and isinstance(value, tuple):
+            if value[0] < 1 or value[1] < 1:
+                raise ValueError(f"{name} must be positive: {value} {provenance}")
         if isinstance(value, int):
             if name == "max_cols" and value <= 0:
                 raise ValueError(f"max_cols must be positive: {value} {provenance}")
@@ -285,6 +296,9 @@ class TupimageConfig:
         elif origin is Literal:
             return value in args
         else:
+            # bool is a subclass of int, but True is not a valid integer option value.
+            if type is int and isinstance(value, bool):
+                return False
             return isinstance(value, type)
 
 
